@@ -1508,7 +1508,7 @@ impl Check for C17 {
         behave::calibrate()
     }
     fn rule(&self) -> String {
-        "forms: random programs with 1-3 traits (1-3 methods, 0-2 extra parameters of int32/string/bool, result int32/string/bool; method names from a pool of six, so traits share names), 1-4 receiver types (struct, enum, the primitives int32/string/bool/int64/uint8, the instances Box[int32]/Box[string]/Box[bool] of one generic struct, structs/enums and traits declared in a second package Lib; impls placed according to the orphan rule), impls for a random subset of (trait, type), inherent impls (names may equal trait-method names of other types), every method body a random expression (arithmetic, concatenation, comparison, if, string_len, *_to_string) over the receiver's fields / payloads / value, the arguments and a per-impl constant; main binds 1-2 values per type and prints `<value>.<trait>.<method>.<form>=` + result for the call forms u (Tr::m(x,a)), gm (u.m(a) in fn[U: Tr]), gu (Tr::m(u,a) in fn[U: Tr]), gg (generic calling generic), pr (second of two bounded parameters), h / h-ufcs (fn[U: Tr + Tr2], UFCS when both traits declare the name), dp (x passed where dyn Tr is expected), dl (let d: dyn Tr = x; Tr::m(d,a)), dd (a dyn passed on), dp-lit / u-lit (a literal receiver), ret (a function returning dyn Tr), im / it (inherent x.m(a) and T::m(x,a)). Oracle: the program is accepted, its Go is accepted by the Go-subset checker and runs to completion, all forms of one (value, method) print the same text and that text is the value of the receiver type's method body computed by the check's own evaluator. neg-dyn: the same plus a coercion to dyn Tr of a value whose type has no impl of Tr (let or argument position): must be rejected with an error diagnostic while the program without these lines is accepted; neg-ambiguous: plus fn[U: A + B](u) { u.m() } with m declared by both traits: must be rejected, while A::m(u) (form h-ufcs) is accepted and runs A's impl; clash: one type with an inherent method and a trait method of the same name: rejecting is allowed, if accepted x.m(a) and T::m(x,a) must both give the inherent method's result and the trait forms the trait impl's. The shapes of open known findings (dyn Tr of a generic instance, an integer literal where dyn Tr is expected, a dyn Tr value taken from a call (ret, ret-dp), T::m(x) for an inherent impl on a generic instance) occur in at most one kind per program, are excluded by the findings' gates (counted under excluded_by_gate) and put their kind at the end of the failure signature. Non-trivial = some (value, method) with >= 3 forms of which one is bounded-generic or dyn; negative cases count when rejected; distinct by hash of the files.".into()
+        "forms: random programs with 1-3 traits (1-3 methods, 0-2 extra parameters of int32/string/bool, result int32/string/bool; method names from a pool of sixteen, ten of which the Go back end has to escape (range, len, new, copy, default, select, init, map, func, var), so traits share names), 1-4 receiver types (struct, enum, the primitives int32/string/bool/int64/uint8, the instances Box[int32]/Box[string]/Box[bool] of one generic struct, structs/enums and traits declared in a second package Lib; impls placed according to the orphan rule), impls for a random subset of (trait, type), inherent impls (names may equal trait-method names of other types), every method body a random expression (arithmetic, concatenation, comparison, if, string_len, *_to_string) over the receiver's fields / payloads / value, the arguments and a per-impl constant; main binds 1-2 values per type and prints `<value>.<trait>.<method>.<form>=` + result for the call forms u (Tr::m(x,a)), gm (u.m(a) in fn[U: Tr]), gu (Tr::m(u,a) in fn[U: Tr]), gg (generic calling generic), pr (second of two bounded parameters), h / h-ufcs (fn[U: Tr + Tr2], UFCS when both traits declare the name), dp (x passed where dyn Tr is expected), dl (let d: dyn Tr = x; Tr::m(d,a)), dd (a dyn passed on), dp-lit / u-lit (a literal receiver), ret (a function returning dyn Tr), im / it (inherent x.m(a) and T::m(x,a)). Oracle: the program is accepted, its Go is accepted by the Go-subset checker and runs to completion, all forms of one (value, method) print the same text and that text is the value of the receiver type's method body computed by the check's own evaluator. neg-dyn: the same plus a coercion to dyn Tr of a value whose type has no impl of Tr (let or argument position): must be rejected with an error diagnostic while the program without these lines is accepted; neg-ambiguous: plus fn[U: A + B](u) { u.m() } with m declared by both traits: must be rejected, while A::m(u) (form h-ufcs) is accepted and runs A's impl; clash: one type with an inherent method and a trait method of the same name: rejecting is allowed, if accepted x.m(a) and T::m(x,a) must both give the inherent method's result and the trait forms the trait impl's. The shapes of open known findings (dyn Tr of a generic instance, an integer literal where dyn Tr is expected, a dyn Tr value taken from a call (ret, ret-dp), T::m(x) for an inherent impl on a generic instance) occur in at most one kind per program, are excluded by the findings' gates (counted under excluded_by_gate) and put their kind at the end of the failure signature. Non-trivial = some (value, method) with >= 3 forms of which one is bounded-generic or dyn; negative cases count when rejected; distinct by hash of the files. Calls are also made from inside closures that capture the receiver (cu) or the trait object (cd). A third of the forms programs additionally declare a printing trait Fx and call it with the result discarded in tail / statement / let / while-tail / if-tail / match-arm position through the concrete, bounded (u.fx, Fx::fx) and dyn forms: the lines printed must be exactly the expected ones in order. Negative dyn programs also include traits that are not dyn-safe (a method returning Self bare or nested in a tuple, Vec, Ref or array).".into()
     }
     fn assumptions(&self) -> Vec<String> {
         vec![
